@@ -22,7 +22,7 @@ SPEC = {
              "trees with equal non-empty content, or a pair differing in exactly one leaf; distinct = distinct case."),
     "shards": {"quick": 16, "thorough": 16},
     "min_counts": {"quick": {"evaluations": 300, "eq_checked": 20000, "isempty_checked": 1000,
-                             "count_checked": 1000, "nonempty_checked": 1000, "triples_checked": 300, "copy_checked": 1000}},
+                             "count_checked": 1000, "nonempty_checked": 1000, "triples_checked": 300, "copy_checked": 1000, "cleared_checked": 300}},
     "assumptions": [
         "both sides of a comparison share the same leaf default and depth",
         "tensors compared have identical rank ids (the statement is conditional on that)",
@@ -92,6 +92,17 @@ def _family(rng):
             nv = rng.choice([v for v in vals + [11] if v != default and v != c2.get(pt)])
             c2[pt] = nv
         trees.append(_variant(rng, c2, ext, default, dirty=rng.random() < 0.6))
+    # neighbours whose one leaf differs by a few ulps / a relative 6e-10 only (still a different value)
+    if cont and rng.random() < 0.35:
+        for factor in (1 + 6e-10, 1 + 12e-10):
+            c3 = dict(cont)
+            pt = sorted(cont)[rng.randrange(len(cont))]
+            base = float(cont[pt]) if cont[pt] != 0 else 0.3
+            c3[pt] = base * factor if rng.random() < 0.7 else 0.1 + 0.2
+            c4 = dict(cont)
+            c4[pt] = base if rng.random() < 0.7 else 0.3
+            trees.append(_variant(rng, c3, ext, default, dirty=False))
+            trees.append(_variant(rng, c4, ext, default, dirty=False))
     own = [rng.choice(["free", "tensor", "tensor-shape"]) for _ in trees]
     return {"kind": "family", "default": default, "depth": depth, "ext": ext, "trees": trees, "own": own}
 
@@ -172,6 +183,16 @@ def _unary(mon, x, default, tag):
             mon.check(_eq(mon, x, dc, "orig==deepcopy"), f"deepcopy:not-equal:{tag}", "x != deepcopy(x)")
         e = _eq(mon, x, x, "x==x")
         mon.check(e, f"eq:not-reflexive:{tag}", "x != x")
+        if isinstance(x, Tensor) and x.ranks:
+            # the same tensor after its content was removed through the public clear(): no points left
+            y = copy.deepcopy(x)
+            y.getRoot().clear()
+            mon.count("cleared_checked")
+            mon.check(y.countValues() == 0 and y.getRoot().isEmpty(), f"cleared:count:{tag}",
+                      f"after clear() of the root: countValues()={y.countValues()} isEmpty()={y.getRoot().isEmpty()}, the tree has no points")
+            e = _eq(mon, y, Tensor(rank_ids=x.getRankIds(), default=default), "cleared==empty")
+            if e is not None:
+                mon.check(e, f"cleared:not-equal-to-empty:{tag}", "a cleared tensor does not compare equal to an empty tensor with the same rank ids")
         # copies with and without the owner (ownership must not matter)
         for keep in (True, False):
             cp = r.copy(preserve_owner=keep)
